@@ -2,7 +2,7 @@
 # Evaluate a seeded change against checks WITHOUT touching /repo: a scratch worktree + a scratch build dir seeded from /verif/build.
 # usage: tools/try_mutant.sh <patch.diff> <tier> <Cxx> [<Cxx> ...]      (prints one line per check; leaves nothing behind)
 set -e
-patch="$1"; tier="$2"; shift 2
+patch="$(realpath "$1")"; tier="$2"; shift 2
 tag=$(basename "$(dirname "$patch")")-$$
 WT=/tmp/mutrepo-$tag; B=/verif/out/mutbuild-$tag
 cleanup() { git -C /repo worktree remove --force "$WT" >/dev/null 2>&1 || true; rm -rf "$WT" "$B"; git -C /repo worktree prune; }
